@@ -445,4 +445,94 @@ theorem loop_fail_run (o : Oracles) (pre B post : List Op) (it nn : UInt16) (st 
     exact loop_iter_fail_run o _ B post (pre.length + 1) hB hS (drop_loop_body pre B post _)
       (it.toNat - 1) _ f _ rfl (by simp) hnone
 
+/-! ## a loop whose stated body is longer than what remains of the program -/
+
+/-- a straight-line block inside the only active loop `L`, not reaching past `L.end_`:
+    plain sequential execution, the loop frame is untouched -/
+theorem inside_stepN (o : Oracles) (ops : List Op) (L : LoopState) :
+    ∀ (B2 : List Op) (st : Exec) (post : List Op),
+      (∀ op ∈ B2, op.isStraight = true) → ops.drop st.pc = B2 ++ post →
+      st.loops = [L] → st.pc + B2.length ≤ L.end_ →
+      stepN o ops B2.length st =
+        (straight o B2 (st.stack, st.heap)).map fun sh =>
+          { stack := sh.1, heap := sh.2, pc := st.pc + B2.length, loops := [L] }
+  | [], st, _, _, _, hl, _ => by
+    cases st
+    simp only at hl
+    subst hl
+    rfl
+  | op :: rest, st, post, hS, hdrop, hl, hend => by
+    have hop : ops[st.pc]? = some op := getElem?_of_drop hdrop
+    have hs : op.isStraight = true := hS op (by simp)
+    have hin : st.pc + 1 ≤ L.end_ := by simp only [List.length_cons] at hend; omega
+    rw [List.length_cons, stepN, step_straight o ops st op hop hs, straight]
+    cases hexec : execOp o op { stack := st.stack, heap := st.heap, pc := 0, loops := [] } with
+    | none => rfl
+    | some st' =>
+      simp only [Option.map_some, Option.bind_some]
+      rw [hl, updatePc_inside L (st.pc + 1) hin]
+      have h := inside_stepN o ops L rest
+        { stack := st'.stack, heap := st'.heap, pc := st.pc + 1, loops := [L] } post
+        (fun op' h' => hS op' (List.mem_cons_of_mem _ h')) (drop_succ_of_drop hdrop) rfl
+        (by simp only [List.length_cons] at hend ⊢; omega)
+      rw [h]
+      have e : st.pc + 1 + rest.length = st.pc + (rest.length + 1) := by omega
+      simp only [e]
+
+/-- the same in terms of the result of `runFuel` (covers the failing block too) -/
+theorem inside_run (o : Oracles) (ops : List Op) (L : LoopState) :
+    ∀ (B2 : List Op) (st : Exec) (post : List Op) (f m : Nat),
+      (∀ op ∈ B2, op.isStraight = true) → ops.drop st.pc = B2 ++ post →
+      st.loops = [L] → st.pc + B2.length ≤ L.end_ →
+      (runFuel o ops (B2.length + f) st m).1 =
+        (straight o B2 (st.stack, st.heap)).bind fun sh =>
+          (runFuel o ops f
+            { stack := sh.1, heap := sh.2, pc := st.pc + B2.length, loops := [L] }
+            (m + B2.length)).1
+  | [], st, _, f, m, _, _, hl, _ => by
+    cases st
+    simp only at hl
+    subst hl
+    simp [straight]
+  | op :: rest, st, post, f, m, hS, hdrop, hl, hend => by
+    have hop : ops[st.pc]? = some op := getElem?_of_drop hdrop
+    have hs : op.isStraight = true := hS op (by simp)
+    have hpc : st.pc < ops.length := (List.getElem?_eq_some_iff.mp hop).1
+    have hin : st.pc + 1 ≤ L.end_ := by simp only [List.length_cons] at hend; omega
+    rw [List.length_cons, Nat.add_right_comm, runFuel, if_pos hpc,
+      step_straight o ops st op hop hs, straight]
+    cases hexec : execOp o op { stack := st.stack, heap := st.heap, pc := 0, loops := [] } with
+    | none => rfl
+    | some st' =>
+      simp only [Option.map_some, Option.bind_some]
+      rw [hl, updatePc_inside L (st.pc + 1) hin]
+      have h := inside_run o ops L rest
+        { stack := st'.stack, heap := st'.heap, pc := st.pc + 1, loops := [L] } post f (m + 1)
+        (fun op' h' => hS op' (List.mem_cons_of_mem _ h')) (drop_succ_of_drop hdrop) rfl
+        (by simp only [List.length_cons] at hend ⊢; omega)
+      rw [h]
+      have e : st.pc + 1 + rest.length = st.pc + (rest.length + 1) := by omega
+      have e2 : m + 1 + rest.length = m + (rest.length + 1) := by omega
+      simp only [e, e2]
+
+/-- entering a loop (outside any loop) whose stated body length `nn ≥ 1` is arbitrary -/
+theorem step_loop_head_any (o : Oracles) (pre rest : List Op) (it nn : UInt16) (st : Exec)
+    (hit : it.toNat > 0) (hnn : nn.toNat > 0) (hpc : st.pc = pre.length) (hl : st.loops = []) :
+    step o (pre ++ [Op.loop it nn] ++ rest) st =
+      some { st with pc := pre.length + 1,
+                     loops := [{ begin_ := pre.length + 1, end_ := pre.length + nn.toNat,
+                                 left := it.toNat - 1 }] } := by
+  have hop : (pre ++ [Op.loop it nn] ++ rest)[st.pc]? = some (Op.loop it nn) := by
+    rw [hpc]; simp
+  have e : pre.length + 1 + nn.toNat - 1 = pre.length + nn.toNat := by omega
+  have h1 : ¬ pre.length + 1 > pre.length + nn.toNat := by omega
+  unfold step
+  rw [hop]
+  simp [execOp, hit, hl, hpc, updatePc, e, h1]
+
+theorem drop_loop_rest (pre rest : List Op) (op : Op) :
+    (pre ++ [op] ++ rest).drop (pre.length + 1) = rest ++ [] := by
+  rw [List.drop_append_of_le_length (by simp)]
+  simp
+
 end Mel.VM
